@@ -29,12 +29,12 @@ BOUNDS = {
 ASSUMPTIONS = ["A-FP", "A-NP incl. in-place ufunc semantics (out=) of the object-array model", "formatting runs with its output discarded (C-level %g on the NaN payload)",
                "proxies pickle by reference, so the real __reduce__ of Scalar/FixedArray/Quantity is what is exercised"]
 CHUNK = 10
-POOL = ["s_s.m", "f_derived", "f_empty", "s_two_cats", "a_np_limited", "a_list_limited", "s_m", "s_cm_depth", "s_degC", "s_m2", "s_cm2", "s_per_s", "s_empty", "s_unknown", "a_list_m", "a_tuple_cm", "a_np_m", "a_np_cm2", "a_list_m2",
+POOL = ["a_np_degC", "f_np_degC", "a_np_Pag", "s_s.m", "f_derived", "f_empty", "s_two_cats", "a_np_limited", "a_list_limited", "s_m", "s_cm_depth", "s_degC", "s_m2", "s_cm2", "s_per_s", "s_empty", "s_unknown", "a_list_m", "a_tuple_cm", "a_np_m", "a_np_cm2", "a_list_m2",
         "f_list_m", "f_np_cm", "fs_in", "fs_frac_in"]
-BINOPS = ["add", "sub", "mul", "div", "fdiv", "radd_num", "rdiv_num", "mul_num", "eq", "ne", "lt", "le"]
+BINOPS = ["iadd", "isub", "imul", "idiv", "ifdiv", "imul_num", "add", "sub", "mul", "div", "fdiv", "radd_num", "rdiv_num", "mul_num", "eq", "ne", "lt", "le"]
 UNOPS = ["pickle_all", "GetValue_other", "GetValue_own", "CreateCopy", "CreateCopy_unit", "CreateCopy_value", "IsValid", "CheckValidity", "str", "repr", "GetFormatted",
          "copy", "deepcopy", "pickle", "hash", "db.Convert", "ChangingIndex", "ChangingIndex_num", "ChangingIndex_keep", "IndexAsScalar", "FromScalars", "ConvertFractionValue",
-         "ChangeScalars", "pow2", "neg_cmp", "GetValidUnits", "iter_len"]
+         "ChangeScalars", "pow2", "neg_cmp", "GetValidUnits", "iter_len", "CheckValues_dim", "ValidateValues", "GetValues_twice"]
 
 
 def items(tier, seed):
@@ -81,6 +81,9 @@ def make_pool(V):
     if not db.IsValidCategory("c13 limited"):
         db.AddCategory("c13 limited", "length", min_value=-1e30, max_value=1e30)
     p = {}
+    p["a_np_degC"] = Array(_arr([x[2], x[3]]), "degC")  # pure-offset units on caller-owned numpy storage
+    p["f_np_degC"] = FixedArray(2, _arr([x[4], x[5]]), "degC")
+    p["a_np_Pag"] = Array(_arr([x[6], x[7]]), "Pa(g)")
     p["s_s.m"] = Scalar(x[2], "s") * Scalar(2.0, "m")  # composing order not alphabetical
     p["f_derived"] = FixedArray(2, [x[18], x[19]], "m") * FixedArray(2, [1.0, 1.0], "m")
     p["f_empty"] = FixedArray.CreateEmptyArray(2, [x[20], x[21]])
@@ -113,13 +116,37 @@ def _is_zero(v):
 
 def _other_unit(o):
     u = o.GetUnit()
-    return {"m": "cm", "cm": "m", "degC": "K", "in": "m", "m2": None}.get(u)
+    return {"m": "cm", "cm": "m", "degC": "K", "in": "m", "m2": None, "Pa(g)": "Pa"}.get(u)
 
 
 def apply_op(op, a, b, V):
     from barril.units import Array, ChangeScalars, FixedArray, FractionScalar, ObtainQuantity, Scalar, UnitDatabase
 
     k = V["k"]
+    if op in ("iadd", "isub", "imul", "idiv", "ifdiv"):
+        import operator
+
+        return {"iadd": operator.iadd, "isub": operator.isub, "imul": operator.imul, "idiv": operator.itruediv, "ifdiv": operator.ifloordiv}[op](a, b)
+    if op == "imul_num":
+        import operator
+
+        return operator.imul(a, k)
+    if op == "CheckValues_dim":
+        if not isinstance(a, FixedArray):
+            return None
+        a.CheckValues((k, k, k), 3)  # a public validator asked about ANOTHER dimension
+        try:
+            a.CheckValues((k,), 1)
+        except ValueError:
+            pass
+        return None
+    if op == "ValidateValues":
+        return a.ValidateValues(a.GetAbstractValue(), a.GetQuantity()) if isinstance(a, Array) else None
+    if op == "GetValues_twice":
+        u = _other_unit(a)
+        if not u:
+            return None
+        return (a.GetAbstractValue(u), a.GetAbstractValue(u), a.CreateCopy(unit=u).GetAbstractValue(a.GetUnit()))
     if op == "add":
         return a + b
     if op == "sub":
@@ -277,7 +304,7 @@ def _run(cfg, V):
     if exc is None and op == "pickle_all":
         out["pickle_all_bad"] = res
     if exc is None:
-        if op in ("add", "sub", "mul", "div", "fdiv", "radd_num", "rdiv_num", "mul_num", "CreateCopy", "CreateCopy_unit", "CreateCopy_value", "ChangingIndex",
+        if op in ("iadd", "isub", "imul", "idiv", "ifdiv", "imul_num", "add", "sub", "mul", "div", "fdiv", "radd_num", "rdiv_num", "mul_num", "CreateCopy", "CreateCopy_unit", "CreateCopy_value", "ChangingIndex",
                   "ChangingIndex_num", "ChangingIndex_keep", "IndexAsScalar", "FromScalars", "pow2") and res is not None:
             out["fresh"] = all(res is not o for o in pool.values())
             rv_ = res.GetAbstractValue()
